@@ -25,8 +25,8 @@ assert not missing, missing
 m = dict(
     version=1,
     setup_cmd='python3 -m vk.selftest',
-    hooks=dict(guard='zombiezen_redo_rs_verif',
-               enable='RUSTFLAGS="--cfg zombiezen_redo_rs_verif" cargo build --offline (only used by concrete replay; the Verus route reads source text and needs no hook)',
+    hooks=dict(guard='zombiezen_redo_rs_verif (cargo feature)',
+               enable='cargo build --offline --features zombiezen_redo_rs_verif  (done by /verif/replay, whose Cargo.toml depends on /repo with that feature; only the concrete probes use it, the Verus route reads source text and needs no hook)',
                baseline_off_cmd='cd /repo && cargo test --workspace --no-fail-fast --offline',
                source_commits=json.load(open(os.path.join(ROOT, 'hooks.json')))['source_commits'],
                add_only=True),
